@@ -60,7 +60,23 @@ def next_prefix(trace):
 
 
 def _node_of(step):
-    return int(step.real_name[1:])
+    idx = getattr(CTX, "name_index", None)      # pre-staged graph (run_history staged=...): instance name -> index
+    return idx[step.real_name] if idx else int(step.real_name[1:])
+
+
+def _key_of(i):
+    """key of node i in dag.values: "n<i>" for graphs built by build_dag, the instance name for a pre-staged graph"""
+    names = getattr(CTX, "names", None)
+    return names[i] if names else "n%d" % i
+
+
+def staged_dag(c, staged, root):
+    """run_history(staged=f): f(root) -> (ExecutionGraph staged by the real Study.stage(), instance names in
+    node order).  The scripted adapters find a step's node index through c.name_index."""
+    dag, names = staged(root)
+    c.names = list(names)
+    c.name_index = {nm: i for i, nm in enumerate(names)}
+    return dag
 
 
 STATES = ["INITIALIZED", "PENDING", "WAITING", "RUNNING", "FINISHING", "FINISHED", "QUEUED", "FAILED",
@@ -296,11 +312,59 @@ def build_dag(nodes, cfg, root):
 def rows_of(dag, n):
     rows = []
     for i in range(n):
-        r = dag.values["n%d" % i]
+        r = dag.values[_key_of(i)]
         # a job id the scheduler never issued (None, garbage) is kept as the sentinel 4999: monitor code 12
         # (job-id column = ids returned by successful submissions) then flags it on the implementation's trace
         rows.append([r.status.name, [int(j) if str(j).isdigit() else 4999 for j in r.jobid], r.restarts])
     return rows
+
+
+# what the user is SHOWN: status.csv as the real write_status renders it (C02 "is reported failed or
+# cancelled", C06 "the restart count shown in the status").  run_history(shown=True) (or SHOWN = True)
+# calls the real ExecutionGraph.write_status after every poll -- the conductor does so itself, the direct
+# driver does not -- reads the file back and keeps, per step, the shown State / Job ID / Number Restarts
+SHOWN = False
+
+
+def shown_rows(dag, root, n):
+    """[[State, Job ID, Number Restarts] as shown in status.csv, or None when the step has no row] per step;
+    {"exc": ...} when the status file could not be written or read."""
+    import csv
+    try:
+        dag.write_status(root)
+        with open(os.path.join(root, "status.csv"), newline="") as f:
+            by_name = {}
+            for r in csv.DictReader(f):
+                by_name.setdefault(r.get("Step Name"), r)
+        out = []
+        for i in range(n):
+            r = by_name.get("n%d" % i)
+            out.append(None if r is None else [r.get("State"), r.get("Job ID"), r.get("Number Restarts")])
+        return out
+    except Exception as e:
+        return {"exc": "%s: %s" % (type(e).__name__, str(e)[:200])}
+
+
+def shown_diff(rows, shown):
+    """Differences between the engine records (rows_of: [state, job ids, restarts] per step) and what
+    status.csv shows for the same poll: list of (step, column, shown, recorded)."""
+    if isinstance(shown, dict):
+        return [(-1, "status.csv", shown.get("exc"), "a readable status file")]
+    out = []
+    for i, rec in enumerate(rows):
+        sh = shown[i] if i < len(shown) else None
+        if sh is None:
+            out.append((i, "row", "absent", rec[0]))
+            continue
+        if sh[0] != rec[0]:
+            out.append((i, "State", sh[0], rec[0]))
+        want_job = "--" if not rec[1] else rec[1][-1]
+        got_job = int(sh[1]) if str(sh[1]).isdigit() else ("--" if sh[1] == "--" else 4999)
+        if got_job != want_job:
+            out.append((i, "Job ID", sh[1], want_job))
+        if str(sh[2]) != str(rec[2]):
+            out.append((i, "Number Restarts", sh[2], rec[2]))
+    return out
 
 
 class _StopHistory(Exception):
@@ -358,7 +422,7 @@ def _drive_conductor(dag, case, root, make_pin, record):
 
 def run_history(nodes, cfg, rng, profile="mixed", max_polls=14, cancel_p=0.04, qerr_p=0.015, qnojobs_p=0.06,
                 sub_ok_p=0.85, fair_after=None, scripted_pins=None, root=None, fair_bound=None,
-                after_poll=None, chooser=None, enum=None, via_conductor=False):
+                after_poll=None, chooser=None, enum=None, via_conductor=False, shown=None, staged=None):
     """Run one history against the real ExecutionGraph.  Returns a case dict:
     nodes, cfg, polls=[{pin..., events, rows, status}], end = 'final'|'running'|'exc'."""
     global CTX
@@ -372,7 +436,7 @@ def run_history(nodes, cfg, rng, profile="mixed", max_polls=14, cancel_p=0.04, q
     CTX = c
     case = {"nodes": nodes, "cfg": cfg, "profile": profile, "polls": [], "end": "running"}
     try:
-        dag = build_dag(nodes, cfg, root)
+        dag = build_dag(nodes, cfg, root) if staged is None else staged_dag(c, staged, root)
     except Exception as e:
         case["end"] = "exc"
         case["exc"] = "build:" + type(e).__name__ + ":" + str(e)[:200]
@@ -419,6 +483,8 @@ def run_history(nodes, cfg, rng, profile="mixed", max_polls=14, cancel_p=0.04, q
             status = "EXC:rows:" + type(e).__name__
         poll = dict(pin)
         poll.update({"events": c.events, "rows": rows, "status": status})
+        if SHOWN if shown is None else shown:
+            poll["shown"] = shown_rows(dag, root, n)
         case["polls"].append(poll)
         if after_poll is not None:
             after_poll(dag, case, state["k"])
